@@ -797,5 +797,9 @@ EXPLANATION = (
     'iterable only through its cursor functions, in the direction matching the step sign, never through keyed access; (e) slice-bound — '
     'the end of a slice cursor depends on its stop bound (known finding: it does not); (f) zip-shortest — Zip_Len is the minimum and any '
     'exhausted input ends the zip; (g) foreach expansion; (h) len agrees with the emptiness tests of the cursors; (i) List link pairing '
-    '(backward iteration relies on prev links kept by unlink). Not decided: Range and Slice arithmetic (Range_Len, Range_Iter_Last with a '
-    'stride, Slice_Arg clamping) and Table cursor stepping over slot memory — value-level.')
+    '(backward iteration relies on prev links kept by unlink) and len-counts-links; (j) slot-scan — Table iter_init/iter_last examine every slot '
+    'index in order before answering Terminal (evaluated for nslots 1..5); (k) cursor-is-scratch — iter_init/iter_last/len/get/mem of Range and '
+    'Slice never read the Range cursor before storing it; (l) range-arithmetic, slice-clamp, slice-ends, zip-last-aligned — each small '
+    'integer function is evaluated on its own by the analyser (exact C conversions; iterables abstracted to positions) over a finite grid '
+    'and compared with the closed form of the element sequence: bounded evaluation, not a proof for all int64 values. Not decided: Table '
+    'cursor stepping over slot memory; Filter/Map contents (value level).')
